@@ -197,3 +197,38 @@ func VerifC04Header() {
 	verifAssert("C04.h.tail-untouched", verifEqBytes(dst[size:], prior[size:]))
 	verifCover("C04.hdr.end")
 }
+
+// the contract on a header whose extension block is in the upper range of the
+// 16-bit length field (the destination's bulk is a fixed filler)
+func VerifC04Huge() {
+	var p Packet
+	verifFixedFields(&p.Header, 0)
+	p.Extension = true
+	p.ExtensionProfile = verifU16("profile")
+	verifAssume(p.ExtensionProfile != 0xBEDE)
+	verifAssume(p.ExtensionProfile != 0x1000)
+	words := verifPick("words", []int{0x3FFF, 0x4000, 0xFFFF})
+	verifAssert("C04.huge.set", p.SetExtension(0, verifFiller("legacy", 4*words)) == nil)
+	p.Payload = verifBytes("payload", 1)
+	size := p.MarshalSize()
+	ref, err := p.Marshal()
+	verifAssert("C04.huge.ref", err == nil && len(ref) == size && size == 12+4+4*words+1)
+	d := size + verifCase("slack", -1, 2)
+	dst := verifFiller("dst", d)
+	prior := append([]byte{}, dst...)
+	n, err := p.MarshalTo(dst)
+	if d < size {
+		verifAssert("C04.huge.short", err != nil && errors.Is(err, io.ErrShortBuffer) && n == 0)
+		verifCover("C04.huge.short")
+		return
+	}
+	verifAssert("C04.huge.noerr", err == nil && n == size)
+	verifAssert("C04.huge.same-as-marshal", verifEqBytes(dst[:size], ref))
+	verifAssert("C04.huge.tail-untouched", verifEqBytes(dst[size:], prior[size:]))
+	// and the header alone
+	hs := p.Header.MarshalSize()
+	hd := verifFiller("hdst", hs+1)
+	hn, err := p.Header.MarshalTo(hd)
+	verifAssert("C04.huge.header", err == nil && hn == hs && hs == size-1 && verifEqBytes(hd[:hs], ref[:hs]))
+	verifCover("C04.huge.end")
+}
